@@ -28,6 +28,8 @@ func init() {
 func runC14(c *Ctx) {
 	m := c.Root()
 	r := c.R
+	// the name cap is the documented 4096 bytes, not whatever the constant says
+	c10Constants(c, m, "C14.frame-cap")
 	tcn := m.Func("internal/crashmonitor", "telemetryCounterName")
 	psp := m.Func("internal/crashmonitor", "parseStackPCs")
 	child := m.Func("internal/crashmonitor", "Child")
